@@ -2,6 +2,7 @@ import Ivg.Lemmas.GenQ
 import Ivg.Lemmas.Gen32x
 import Ivg.Gen.Tie.GenerateErrors
 import Ivg.Gen.Tie.GeneratorFields
+import Ivg.Gen.Tie.Code.RenderRegs
 import Ivg.Obligations
 /-!
 # C19 — the generator's gradient helpers
@@ -392,4 +393,14 @@ end Ivg.Props.C19
   Ivg.Props.C19.helper_rendered,
   Ivg.Gen.Tie.generateErrors_tie,
   Ivg.Gen.Tie.generator_fields_tie,
-  Ivg.Gen.Tie.gradientStop_fields_tie]
+  Ivg.Gen.Tie.gradientStop_fields_tie,
+  -- regenerated code (translator, Ivg/Gen/Code) = model, for all inputs: RenderRegs (Reset recomputes the transform; the selectors keep six bits)
+  Ivg.Gen.Tie.renderer_CSel_code_tie,
+  Ivg.Gen.Tie.renderer_NSel_code_tie,
+  Ivg.Gen.Tie.renderer_SetCSel_code_tie,
+  Ivg.Gen.Tie.renderer_SetNSel_code_tie,
+  Ivg.Gen.Tie.renderer_SetLOD_code_tie,
+  Ivg.Gen.Tie.renderer_SetNReg_code_tie,
+  Ivg.Gen.Tie.positiveInfinity_code_tie,
+  Ivg.Gen.Tie.renderer_Reset_code_tie,
+  Ivg.Gen.Tie.renderer_Reset_code_tie_frame]
